@@ -75,6 +75,22 @@ func ReadTree(dir string) Tree {
 	return t
 }
 
+// ageTree owns the file-time nondeterminism: every source file gets a modification time one hour in the
+// past and every generated output file one hour in the future, so that an output is always "newer than its
+// sources" -- the adversarial case for any time-stamp based shortcut.
+func ageTree(dir string, t Tree) {
+	past := time.Now().Add(-time.Hour)
+	future := time.Now().Add(time.Hour)
+	for p := range t {
+		full := filepath.Join(dir, p)
+		if strings.HasSuffix(p, "wire_gen.go") {
+			os.Chtimes(full, future, future)
+		} else {
+			os.Chtimes(full, past, past)
+		}
+	}
+}
+
 // FSOp is one transition label: either a wire invocation (Argv non-nil) or an editor action.
 type FSOp struct {
 	Name string
@@ -179,6 +195,7 @@ func (e *FSExplorer) Replay(initial []*FSState, history string) ([]Violation, er
 			dir := e.S.Dir("replay")
 			WriteFiles(dir, ModuleFiles(e.ModPath))
 			WriteFiles(dir, cur.Tree)
+			ageTree(dir, cur.Tree)
 			o := e.runWire(dir, op.Dir, op.Argv...)
 			after := ReadTree(dir)
 			run := func(argv ...string) FSOutcome { return e.runWire(dir, op.Dir, argv...) }
@@ -262,6 +279,7 @@ func (e *FSExplorer) Explore(initial []*FSState, deadline time.Time) []Violation
 						defer os.RemoveAll(dir)
 						WriteFiles(dir, ModuleFiles(e.ModPath))
 						WriteFiles(dir, j.s.Tree)
+						ageTree(dir, j.s.Tree)
 						out := e.runWire(dir, j.op.Dir, j.op.Argv...)
 						after := ReadTree(dir)
 						run := func(argv ...string) FSOutcome { return e.runWire(dir, j.op.Dir, argv...) }
